@@ -1,0 +1,44 @@
+//go:build verif
+
+// Contracts for package ociunify, checked by /verif/govc. Comments only.
+
+package ociunify
+
+// ---------------------------------------------------------------------------
+// C05 / C15: the merged listing. xs is what the returned iterator yields (by
+// SliceSeq when neither member failed, else by the closure below, which
+// appends the error). cmp is a pure total preorder (as slices.SortFunc needs).
+//
+// The merged list is strictly ascending under cmp (so duplicate-free), holds
+// nothing that neither member listed, and loses nothing either member listed.
+
+//@ func mergeIter
+//@   pure-param cmp
+//@   requires it0 != nil && it1 != nil && cmp != nil
+//@   ensures result != nil
+//@   ensures[strictly-ascending] forall i, j int :: 0 <= i && i < j && j < len(xs) ==> cmp(xs[i], xs[j]) <= 0 && cmp(xs[i], xs[j]) != 0
+//@   ensures[nothing-invented] forall i int :: 0 <= i && i < len(xs) ==>
+//@     (exists k int :: 0 <= k && k < len(xs0) && xs0[k] == xs[i]) || (exists k int :: 0 <= k && k < len(xs1) && xs1[k] == xs[i])
+//@   ensures[nothing-lost-from-the-first] !(errIs(calls[0].result.1, ociregistry.ErrNameUnknown) && errIs(calls[1].result.1, ociregistry.ErrNameUnknown)) ==> forall k int :: 0 <= k && k < len(xs0) ==> exists i int :: 0 <= i && i < len(xs) && cmp(xs[i], xs0[k]) == 0
+//@   ensures[nothing-lost-from-the-second] !(errIs(calls[0].result.1, ociregistry.ErrNameUnknown) && errIs(calls[1].result.1, ociregistry.ErrNameUnknown)) ==> forall k int :: 0 <= k && k < len(xs1) ==> exists i int :: 0 <= i && i < len(xs) && cmp(xs[i], xs1[k]) == 0
+//@   ensures[clean-listing-is-that-slice] err == nil && !(err0 != nil && err1 != nil) ==> result == ociregistry.SliceSeq(xs)
+//@   ensures[both-members-consulted] calls == [ociregistry.All(it0), ociregistry.All(it1)] && xs0 == calls[0].result.0 && xs1 == calls[1].result.0
+//@   ensures[unknown-to-both-is-unknown] errIs(calls[0].result.1, ociregistry.ErrNameUnknown) && errIs(calls[1].result.1, ociregistry.ErrNameUnknown) ==>
+//@     result == ociregistry.ErrorSeq(calls[0].result.1)
+//@   ensures[unknown-to-one-member-is-forgiven] (calls[0].result.1 == nil && (calls[1].result.1 == nil || errIs(calls[1].result.1, ociregistry.ErrNameUnknown))) ||
+//@     (calls[1].result.1 == nil && errIs(calls[0].result.1, ociregistry.ErrNameUnknown)) ==> result == ociregistry.SliceSeq(xs)
+//@   ensures[any-other-failure-ends-the-listing-with-it] calls[0].result.1 != nil && !errIs(calls[0].result.1, ociregistry.ErrNameUnknown) ==> err == calls[0].result.1
+//@   ensures[any-other-failure-of-the-second-too] (calls[0].result.1 == nil || errIs(calls[0].result.1, ociregistry.ErrNameUnknown)) &&
+//@     calls[1].result.1 != nil && !errIs(calls[1].result.1, ociregistry.ErrNameUnknown) ==> err == calls[1].result.1
+
+//@ func mergeIter$1
+//@   requires cmp != nil
+
+// The closure used when a member failed: the merged items in order, then the error.
+//@ func mergeIter$2
+//@   requires err != nil
+//@   loop 0 invariant yielded() == rangeindex + 1 && rangeindex + 1 <= len(xs) && !stopped() && yieldedErr() == nil
+//@   loop 0 invariant forall j int :: 0 <= j && j < yielded() ==> yieldedAt(j) == xs[j]
+//@   ensures[in-order-nothing-skipped] yielded() <= len(xs) && forall j int :: 0 <= j && j < yielded() ==> yieldedAt(j) == xs[j]
+//@   ensures[error-only-after-every-item] yieldedErr() != nil ==> yieldedErr() == err && yielded() == len(xs)
+//@   ensures[never-silently-short] stopped() && (yieldedErr() == nil ==> yielded() <= len(xs))
